@@ -5,6 +5,7 @@ EXTENDS ReaderCases, Json, SequencesExt
 CONSTANT Family
 VARIABLE x
 Cases == IF Family = "files" THEN {[t |-> "files", files |-> fl] : fl \in FileLists}
+         ELSE IF Family = "blocks" THEN {[t |-> "blocks", files |-> bfl] : bfl \in BlockFileLists}
          ELSE IF Family = "uses" THEN {[t |-> "uses", files |-> fl, use |-> u] : fl \in {fl \in FileLists : Len(fl) >= 2}, u \in Uses \ {[mode |-> "every", sel |-> "all"]}}
          ELSE {[t |-> "chain", cs |-> c, s |-> s] : c \in Chains2, s \in Streams}
 Init == x \in Cases
